@@ -289,7 +289,6 @@ fn realistic(i: &NextIn) -> bool {
         && i.ort.0 < i.ort.1
         && i.ort.1 <= 65536
         && i.halving >= 1
-        && (i.e.number as u128 + 1) / (i.halving as u128) < 64
         && i.e.number < (1 << 40)
         && i.hnum < (1 << 63)
         && (i.e.base as u128) * (i.e.length as u128) + (i.e.rem as u128) < (1u128 << 64)
@@ -400,7 +399,7 @@ fn pred_next(i: &NextIn, out: &Option<Ee>, viol: &mut Vec<Violation>) {
     }
     // issuance of the next epoch
     let n1 = i.e.number + 1;
-    let exp_reward = if n1 % i.halving != 0 { i.e.base * l + i.e.rem } else { i.init >> (n1 / i.halving) };
+    let exp_reward = if n1 % i.halving != 0 { i.e.base * l + i.e.rem } else if n1 / i.halving < 64 { i.init >> (n1 / i.halving) } else { 0 };
     if o.length > 0 && (o.base as u128 * o.length as u128 + o.rem as u128 != exp_reward as u128 || o.rem >= o.length) {
         vio(viol, "base*length+remainder of the next epoch is not the scheduled primary reward", json!({"case": d, "base": o.base, "rem": o.rem}));
     }
@@ -515,6 +514,27 @@ fn cmp_coq(o: std::cmp::Ordering) -> &'static str {
     }
 }
 
+/// primary_epoch_reward on one input + the property predicate: initial / 2^(epoch / interval),
+/// nothing from the 64th halving on, never a panic (for a non-zero interval)
+fn halving_case(base: &Consensus, init: u64, interval: u64, n: u64) -> (Option<u64>, Option<Violation>) {
+    let mut c = base.clone();
+    c.initial_primary_epoch_reward = Capacity::shannons(init);
+    c.primary_epoch_reward_halving_interval = interval;
+    let r = guard(|| c.primary_epoch_reward(n).as_u64());
+    let mut v = None;
+    if interval > 0 {
+        let h = n / interval;
+        let expect = if h < 64 { init >> h } else { 0 };
+        let d = json!({"group": "halving", "init": init, "interval": interval, "epoch": n, "halvings": h, "got": r, "expected": expect});
+        match r {
+            None => v = Some(Violation { what: "primary_epoch_reward panicked".into(), detail: d }),
+            Some(x) if x != expect => v = Some(Violation { what: "primary epoch reward is not initial / 2^(epoch / interval)".into(), detail: d }),
+            _ => {}
+        }
+    }
+    (r, v)
+}
+
 // ---- replay -----------------------------------------------------------------------
 fn replay(path: &str, base: &Consensus) -> ! {
     let v: Value = serde_json::from_str(&fs::read_to_string(path).unwrap()).unwrap();
@@ -547,6 +567,18 @@ fn replay(path: &str, base: &Consensus) -> ! {
             let diff = guard(|| compact_to_difficulty(c));
             pred_c2t(c, &t, of, &diff, &mut viol);
             json!({"target": ds(&t), "overflow": of, "difficulty": diff.map(|x| ds(&x))})
+        }
+        "halving" => {
+            let (r, v) = halving_case(
+                base,
+                case["init"].as_u64().unwrap(),
+                case["interval"].as_u64().unwrap(),
+                case["epoch"].as_u64().unwrap(),
+            );
+            if let Some(v) = v {
+                viol.push(v);
+            }
+            json!(r)
         }
         _ => {
             println!("replay of group {group} is not supported individually; re-run ./check C07 with the same seed");
@@ -583,7 +615,7 @@ fn main() {
     let mut samples: Vec<Value> = Vec::new();
     let mut evaluations = 0u64;
     let mut distinct = std::collections::BTreeSet::new();
-    let mut extra: BTreeMap<String, Value> = BTreeMap::new();
+    let extra: BTreeMap<String, Value> = BTreeMap::new();
 
     let shards = 16usize;
     let header = "From CKB Require Import Arith.DefaultParams.";
@@ -991,7 +1023,6 @@ fn main() {
     stats.insert("reward_epochs_summed".into(), epochs_summed);
 
     // =========================== halving schedule =====================================
-    let mut shift_panics = 0u64;
     for j in 0..400 * k {
         let interval = match j % 4 {
             0 => HALVING,
@@ -999,34 +1030,32 @@ fn main() {
             _ => rng.range(1, 20000),
         };
         let init = if j % 3 == 0 { INIT_REWARD } else { rng.next() >> rng.below(40) };
-        let kk = rng.below(70);
-        let n = match j % 5 {
+        let kk = match rng.below(4) {
+            0 => *rng.pick(&[62u64, 63, 64, 65, 66, 127, 128]),
+            _ => rng.below(70),
+        };
+        let n = match j % 7 {
             0 => kk.saturating_mul(interval),
             1 => kk.saturating_mul(interval).saturating_sub(1),
-            2 => kk.saturating_mul(interval) + 1,
+            2 => kk.saturating_mul(interval).saturating_add(1),
             3 => rng.below(1 << 24),
-            _ => rng.below(interval.max(1) * 66),
+            4 => rng.below(interval.max(1).saturating_mul(66)),
+            // more halvings than fit a u32 / a u64 epoch number at its end
+            5 => *rng.pick(&[(1u64 << 32) - 1, 1 << 32, (1 << 32) + 1, u64::MAX, u64::MAX - 1, 1 << 63]),
+            _ => interval.saturating_mul(*rng.pick(&[(1u64 << 32) - 1, 1 << 32, 1 << 33])),
         };
-        let mut c = base.clone();
-        c.initial_primary_epoch_reward = Capacity::shannons(init);
-        c.primary_epoch_reward_halving_interval = interval;
-        let r = guard(|| c.primary_epoch_reward(n).as_u64());
-        if interval > 0 {
-            let h = n / interval;
-            if h < 64 {
-                if r != Some(init >> h) {
-                    vio(&mut viol, "primary epoch reward is not initial / 2^(epoch / interval)", json!({"group": "halving", "init": init, "interval": interval, "epoch": n}));
-                }
-            } else if r.is_none() {
-                shift_panics += 1;
-            }
+        let (r, v) = halving_case(&base, init, interval, n);
+        if let Some(v) = v {
+            viol.push(v);
+        }
+        if interval > 0 && n / interval >= 64 {
+            count!("halving_64_or_more");
         }
         evaluations += 1;
         count!("halving");
         push(&mut files, &mut descs, "halving", format!("({}, {}, {}, {})", c64(init), c64(interval), c64(n), coq_option(&r, |x| c64(*x))),
             json!({"group": "halving", "init": init, "interval": interval, "epoch": n, "observed": r}));
     }
-    extra.insert("primary_epoch_reward_panics_at_64_or_more_halvings".into(), json!(shift_panics));
 
     // =========================== next_epoch_ext ========================================
     let lens_in = [P_MIN_LEN, P_MIN_LEN + 1, 599, 600, 601, 899, 900, 901, 1000, P_MAX_LEN - 1, P_MAX_LEN];
@@ -1121,7 +1150,7 @@ fn main() {
             _ => rng.below(20000),
         };
         let init = if rng.chance(3, 4) { INIT_REWARD } else { rng.next() >> rng.range(8, 40) };
-        let reward = if inrange { init >> std::cmp::min(63, number / halving.max(1)) } else { rng.next() >> rng.below(20) };
+        let reward = if inrange { if number / halving.max(1) < 64 { init >> (number / halving.max(1)) } else { 0 } } else { rng.next() >> rng.below(20) };
         let (b, rm) = if l > 0 { (reward / l, reward % l) } else { (reward, 0) };
         let start = if rng.chance(1, 6) { 0 } else { rng.below(1 << 40) };
         let hnum = if inrange || rng.chance(1, 2) { start + l.min(1 << 20) - if l > 0 { 1 } else { 0 } } else { *rng.pick(&[u64::MAX, u64::MAX - 1]) };
@@ -1176,7 +1205,7 @@ fn main() {
         "seed": seed,
         "evaluations": evaluations,
         "distinct_nontrivial": distinct.len(),
-        "rule": "one evaluation = one call of the real function on a generated input (target/compact/difficulty codec, PoW verdict with the hash recomputed by eaglesong, EpochNumberWithFraction packing/successor along generated block chains, RationalU256 operations, per-block reward of every block of an epoch, halving schedule, Consensus::next_epoch_ext through a mock EpochProvider); distinct = distinct targets + compacts + next_epoch_ext inputs; the promised class of next_epoch_ext inputs (no panic allowed, all bounds and the RFC formula checked with 1024-bit arithmetic) is MIN<=L<=MAX, uncles<=2L, duration<2^48 ms, difficulty and previous hash rate below 2^128, fewer than 64 halvings",
+        "rule": "one evaluation = one call of the real function on a generated input (target/compact/difficulty codec, PoW verdict with the hash recomputed by eaglesong, EpochNumberWithFraction packing/successor along generated block chains, RationalU256 operations, per-block reward of every block of an epoch, halving schedule, Consensus::next_epoch_ext through a mock EpochProvider); distinct = distinct targets + compacts + next_epoch_ext inputs; the promised class of next_epoch_ext inputs (no panic allowed, all bounds and the RFC formula checked with 1024-bit arithmetic) is MIN<=L<=MAX, uncles<=2L, duration<2^48 ms, difficulty and previous hash rate below 2^128; primary_epoch_reward must answer initial >> halvings (0 from 64 halvings on) for every u64 epoch number and non-zero interval, a panic is a violation",
         "distribution": stats,
         "samples": samples,
         "impl_violations": viol.iter().map(|v| json!({"what": v.what, "detail": v.detail})).collect::<Vec<_>>(),
